@@ -1,11 +1,82 @@
 /-
 C19 — A torn .trib/.tribc file is never read as different data.
-Only property theorems live here (helper lemmas: `Lemmas/Codec*.lean`).
+Only property theorems live here (helper lemmas: `Lemmas/CodecPrefix.lean`).
+
+`decode` mirrors `binary_input.py` including the silent short `stream.read(n)`, the raising
+`struct.unpack` on a short read, `peek`, "EOF or unknown marker ends the loop", "unknown tag ⇒ None".
+The theorems are about every strict prefix of `encode t` — the bytes a crash during `to_binary`
+leaves behind (writes are sequential). Compressed files are outside the model (gzip is a library):
+the harness enumerates every truncation of the compressed files on the implementation.
 -/
-import Bermuda.Lemmas.CodecSpec
-import Bermuda.Spec.C19
+import Bermuda.Lemmas.CodecPrefix
 namespace Bermuda.Properties.C19
 open Bermuda Bermuda.Codec
+
+/-! ### 1. per-class prefix lemmas: on a strict prefix of what the writer wrote the reader raises
+(`StrongP`) or, at worst, returns having consumed all that is left (`WeakP`) -/
+
+/-- fixed-width `<hBB`: always raises -/
+theorem date_prefix (d : Date) : StrongP readDate (writeDate d) := readDate_strong d
+
+/-- `<d`: always raises -/
+theorem limit_prefix (l : Option Bytes) (h : limitOk l = true) : StrongP readLimit (writeLimit l) :=
+  readLimit_strong l h
+
+/-- a string is read with a plain `stream.read(n)`: cut inside its body it comes back SHORTER
+without an error (unless the cut splits a UTF-8 sequence) — but then nothing is left -/
+theorem string_prefix (s : Option Bytes) (h : optStrOk s = true) : WeakP readStr (writeStr s) :=
+  readStr_weak s h
+
+/-- arrays: `np.frombuffer(...).reshape(shape)` raises on a short payload -/
+theorem array_prefix (dims : List Nat) (p : Bytes) (h : arrOk dims p = true) :
+    StrongP readArrBody (writeArrBody dims p) := readArrBody_strong dims p h
+
+/-- a value whose tag byte is missing reads as `None` (weak); everything else raises or is a
+short string -/
+theorem value_prefix (v : RawVal) (h : valOk v = true) : WeakP readVal (writeVal v) :=
+  readVal_weak v h
+
+/-- a dictionary needs its `DICT_END` byte: every strict prefix raises (a value that came back
+early is followed by a `<H` unpack on empty input) -/
+theorem dict_prefix (pool : List Bytes) (hp : pool.length ≤ 65536) (d : RawDict)
+    (hd : dictOk d = true) (hk : KeysIn pool d) :
+    StrongP (readDict (pool.map some)) (writeDict pool d) := readDict_strong pool hp d hd hk
+
+/-- a metadata record ends in two dictionaries: every strict prefix raises -/
+theorem metadata_prefix (pool : List Bytes) (hp : pool.length ≤ 65536) (m : RawMetadata)
+    (hm : metaOk m = true) (hk1 : KeysIn pool m.details) (hk2 : KeysIn pool m.lossDetails) :
+    StrongP (readMetaBody (pool.map some)) (writeMetaBody pool m) :=
+  readMetaBody_strong pool hp m hm hk1 hk2
+
+/-- a cell record ends in a dictionary (or, for incremental cells, a date): every strict prefix
+raises — no partial last cell -/
+theorem cell_prefix (pool : List Bytes) (hp : pool.length ≤ 65536) (c : RawCell)
+    (hc : cellOk c = true) (hk : KeysIn pool c.values) :
+    StrongP (readCellBody (pool.map some) c.kind c.md) (writeCellBody pool c) :=
+  readCellBody_strong pool hp c hc hk
+
+/-- the string pool: raises, or comes back (possibly with a shortened last string) with nothing
+left — and then the record loop returns the empty triangle -/
+theorem pool_prefix (pool : List Bytes) (hlen : pool.length < 32768)
+    (h : ∀ s ∈ pool, strOk s = true) : WeakP readPool (writePool pool) := readPool_weak pool hlen h
+
+/-- the record loop, by induction over the records -/
+theorem records_prefix (pool : List Bytes) (hp : pool.length ≤ 65536)
+    (cells : List RawCell) (hc : ∀ c ∈ cells, cellOk c = true ∧ CellIn pool c)
+    (prev : Option RawMetadata) (m fuel : Nat)
+    (hf : ((writeRecords pool prev cells).take m).length < fuel) :
+    PrefixResult cells (readRecords (pool.map some) fuel prev ((writeRecords pool prev cells).take m)) :=
+  readRecords_prefix pool hp cells hc prev m fuel hf
+
+/-! ### 2. the property -/
+
+/-- **C19.** Reading any strict prefix of a valid file either raises or returns exactly the
+leading cells of the original triangle, in order, unmodified: never a cell that was not in the
+original, never a cell with altered dates, metadata or values, never cells out of order. -/
+theorem decode_prefix_safe (t : RawTriangle) (h : wf t = true) (n : Nat) (hn : n < (encode t).length) :
+    (∃ e, decode ((encode t).take n) = .error e) ∨
+    (∃ k, decode ((encode t).take n) = .ok (t.take k)) :=
+  decode_prefix_safe_main t h n hn
 
 /-- a file cut inside the 5-byte header is refused -/
 theorem decode_header_prefix_error (t : RawTriangle) (n : Nat) (hn : n < 5) :
@@ -16,9 +87,23 @@ theorem decode_header_prefix_error (t : RawTriangle) (n : Nat) (hn : n < 5) :
   have h5 : n = 0 ∨ n = 1 ∨ n = 2 ∨ n = 3 ∨ n = 4 := by omega
   rcases h5 with rfl | rfl | rfl | rfl | rfl <;> simp [decode, encode, hm, hv]
 
--- OPEN decode_prefix_safe
--- theorem decode_prefix_safe (t : RawTriangle) (h : wf t = true) (n : Nat) (hn : n < (encode t).length) :
---     (∃ e, decode ((encode t).take n) = .error e) ∨
---     (∃ k, decode ((encode t).take n) = .ok (t.take k))
+/-- the Spec predicate the driver runs on what the IMPLEMENTATION returned for a torn file holds
+for whatever the model returns -/
+theorem spec_prefixSafe (t : RawTriangle) (h : wf t = true) (n : Nat) (hn : n < (encode t).length)
+    (r : RawTriangle) (hr : decode ((encode t).take n) = .ok r) : Spec.prefixSafe t r = true := by
+  rcases decode_prefix_safe t h n hn with ⟨e, he⟩ | ⟨k, hk⟩
+  · rw [he] at hr; cases hr
+  · rw [hk] at hr
+    cases hr
+    exact prefixSafe_take t (wf_parts h).1 k
+
+/-! ### 3. non-vacuity -/
+
+/-- the hypotheses hold for the 2-slice incremental witness (all value kinds, non-ASCII and `None`
+strings, a 2-d array): each of its strict prefixes is refused or yields leading cells -/
+example (n : Nat) (hn : n < (encode exTriangle).length) :
+    (∃ e, decode ((encode exTriangle).take n) = .error e) ∨
+    (∃ k, decode ((encode exTriangle).take n) = .ok (exTriangle.take k)) :=
+  decode_prefix_safe exTriangle exTriangle_wf n hn
 
 end Bermuda.Properties.C19
